@@ -15,7 +15,7 @@ def ex1c(model):
     r = RuleResult('EX1c', 'every extracted flow that is not empty is output: the loop of Parser.parse '
                    'that appends the flows skips a flow only if it is empty', floor=1)
     p = model.func('parser.Parser.parse')
-    loop = [s for s in p.node.body if isinstance(s, ast.For) and 'extracted' in unparse(s.iter)]
+    loop = [s for s in T.body_with_tail(model, p) if isinstance(s, ast.For) and 'extracted' in unparse(s.iter)]
     if not loop or not isinstance(loop[0].target, ast.Name):
         raise AnalysisError('anchor vanished: loop over the extracted flows in Parser.parse')
     lp = loop[0]
@@ -260,6 +260,11 @@ def tj7(model):
             if src is None:
                 continue
             names = {x.id for x in ast.walk(n.slice) if isinstance(x, ast.Name)}
+            # an index that is a local name for an expression over tested numbers: last = max(beg, end - 1)
+            for nm in list(names):
+                vals = T.resolve_local(model, next(x for x in ast.walk(n.slice) if isinstance(x, ast.Name) and x.id == nm))
+                if len(vals) == 1 and isinstance(vals[0], ast.Call) and getattr(vals[0].func, 'id', '') in ('max', 'min'):
+                    names |= {x.id for x in ast.walk(vals[0]) if isinstance(x, ast.Name)}
             base = unparse(n.value)
 
             def ranged(e, t):
